@@ -77,6 +77,11 @@ def mk_ep(name, role, nw, rng, alloc, array=None, nranges=1, style=None, gap=Non
                 r["desc"] = f"w{j}"
             rs.append(r)
         ep["addr_range"] = rs[0] if (nranges == 1 and rng.random() < 0.5) else rs
+    if role == "m" and rng.random() < 0.15:
+        # a manager-only endpoint may declare a range: accepted, and absent from the address map (no rule, no count)
+        size = rng.choice([0x1000, 0x40])
+        base = alloc.take(size * num, 0)
+        ep["addr_range"] = {"base": base, "size": size} if array is not None else {"start": base, "end": base + size}
     if nw:
         pin = {"both": ["narrow_in", "wide_in"], "narrow": ["narrow_in"], "wide": ["wide_in"]}[proto_sel]
         # the manager and the subordinate side choose narrow / wide independently (a DMA: wide manager, narrow subordinate)
@@ -273,6 +278,27 @@ def tree(rng, levels=(1, 2), algo="ID", nw=False, leaves_per_router=1, root_eps=
     return d, {"topo": "tree", "levels": list(levels), "leaves": total}
 
 
+def tree_manual(rng, levels=(2, 2), algo="ID", nw=False):
+    """a two-level router tree with auto_connect: false; the roots are chained, root i serves the leaves of group
+    (i + 1) mod roots; one cluster per leaf, one memory on the first root"""
+    roots, fan = levels
+    d = header("treeman", nw, algo)
+    alloc = Alloc(rng)
+    total = roots * fan
+    eps = [mk_ep("cluster", "ms", nw, rng, alloc, array=[total]), mk_ep("mem", rng.choice(["s", "ms"]), nw, rng, alloc)]
+    conns = [{"src": "cluster", "dst": "rt", "src_range": [[0, total - 1]], "dst_lvl": 1},
+             {"src": "mem", "dst": "rt", "dst_idx": [0]}]
+    for i in range(roots - 1):
+        conns.append({"src": "rt", "dst": "rt", "src_idx": [i], "dst_idx": [i + 1]})
+    for i in range(roots):
+        g = (i + 1) % roots
+        conns.append({"src": "rt", "dst": "rt", "src_idx": [i], "dst_range": [[g, g], [0, fan - 1]], "allow_multi": True})
+    d["endpoints"] = eps
+    d["routers"] = [{"name": "rt", "tree": [roots, fan], "auto_connect": False}]
+    d["connections"] = conns
+    return d, {"topo": "tree-manual", "levels": [roots, fan]}
+
+
 # ---------------------------------------------------------------------------------------------- custom
 def custom(rng, nr=3, algo="ID", nw=False, extra_edges=0, eps_per=1, degrees=None, shuffle=True, carriers=None):
     """nr single routers joined into a random connected graph by explicit router-router connections,
@@ -364,6 +390,10 @@ def routing_suite(tier, seed, algos=("ID", "SRC", "XY"), want=None):
             for lp in ((1, 2, 4, 8) if len(levels) == 2 and levels[0] == 1 else (1, 2) if q else (1, 2, 4)):
                 out.append(tree(rng, levels, algo, rng.random() < 0.3, leaves_per_router=lp,
                                 root_eps=rng.randint(0, 2), roles=rng.choice([["ms"], ["ms", "s", "m"], ["s", "m", "ms"]])))
+        # router trees that are NOT auto-connected, wired by hand and crosswise (root 0 serves the leaves of group 1 and
+        # vice versa): no parent-child link may appear that the description does not write
+        for levels in ([(2, 2)] if q else [(2, 2), (2, 3), (3, 2)]):
+            out.append(tree_manual(rng, levels, algo, rng.random() < 0.3))
         # custom graphs
         for _ in range(30 if q else 300):
             nr = rng.randint(2, 6)
@@ -706,6 +736,14 @@ def name_collision_suite(tier, seed):
                 d["connections"] = [{"src": "epa", "dst": "x"}, {"src": "epb", "dst": "z"}, {"src": "x", "dst": "y_to_z"},
                                     {"src": "x_to_y", "dst": "z"}, {"src": "y_to_z", "dst": "x_to_y"}]
                 out.append((d, dict(t, topo="names", collision="link-link")))
+                # names that differ only in letter case are different names: two routers `Xbar` / `xbar` behind a hub (a
+                # name-normalising signal-name helper would declare `hub_to_xbar_req` twice)
+                d, t = star(rng, 2, algo, nw, roles=["ms", "ms"], shapes=[None, None], nranges=[1, 1])
+                d = json.loads(json.dumps(d))
+                d["routers"] = [{"name": "hub"}, {"name": "Xbar"}, {"name": "xbar"}]
+                d["connections"] = [{"src": "epa", "dst": "Xbar"}, {"src": "epb", "dst": "xbar"}, {"src": "hub", "dst": "Xbar"},
+                                    {"src": "xbar", "dst": "hub"}]
+                out.append((d, dict(t, topo="names", collision="letter-case")))
             else:
                 d, t = mesh(rng, 2, 1, algo, nw, sides=("W",))
                 if d is not None:
